@@ -40,6 +40,30 @@ CLAIMED["C02"] = (
     "set-valued oracle (greedy/lazy regex choices are not constrained); Params treated read-only by handlers; trusted: TLC, class "
     "table vs Go regexp", "6 C02")
 
+CLAIMED["C06"] = (
+    "TLA+ spec RuxResolve (operational QuickMatch/findAllowedMethods over the index vs the declarative resolution ladder) "
+    "model-checked with TLC for every table/option set/intercept spelling; every cell replayed on Router.Match and ServeHTTP",
+    "TLC enumerates tables of <=2 routes over an 8-pattern pool x 5 method sets x HandleMethodNotAllowed x HandleFallbackRoute x "
+    "InterceptAll spellings and checks QuickMatch = Resolve for 6 request methods x 18 paths; each state is rebuilt on the real "
+    "router (plain, caching, custom NotFound/NotAllowed handlers) and Match results, status, Allow header and bodies compared.",
+    "small scope; StrictLastSlash not varied here (C11); default and custom fallback handlers; trusted: TLC, net/http recorder", "6 C06")
+CLAIMED["C07"] = (
+    "TLA+ spec RuxRouterCache (router + LRU threaded through every match() call incl. HEAD fallback and 405 probes); TLC "
+    "explores the complete state graph and checks transparency as an action property; every edge replayed on a caching router "
+    "and its cache-less twin",
+    "The reachable graph of (table, options, capacity, cache content) for 3 tables x 9 requests x capacities 0..3 covers request "
+    "histories of every length over that alphabet; on every transition the result through the cache equals the cache-less "
+    "resolution; each edge is replayed on twin real routers comparing responses with each other and with the model, and the "
+    "cache keys in recency order with the model.",
+    "fixed tables/request alphabet; Params read-only; registration finished before serving; trusted: TLC, verif-tag cache accessors", "6 C07")
+CLAIMED["C11"] = (
+    "TLA+ spec RuxPath (declarative Norm vs statement-level FormatPath with partiality, URL escape forms) model-checked over all "
+    "token strings; Route.Path() under 0-2 group prefixes, the full reach matrix and raw-URL requests replayed on the real router",
+    "All token strings <=4/5 over {/, SP, TAB, ., a}: FormatPath = Norm, totality and the normalisation laws; for every string the "
+    "predicted Route.Path() (alone, in one and in two nested groups, both StrictLastSlash settings) and, for every pair (P,Q), "
+    "whether Q reaches a route registered as P; raw URLs with %2F %20 %61 under both UseEncodedPath settings via ServeHTTP.",
+    "alphabet-bounded; static routes for the reach relation; trusted: TLC, net/url parsing", "6 C11")
+
 PENDING = {}
 
 
